@@ -280,11 +280,12 @@ func (d Decimal) Div(input Decimal) Decimal {
 
 // FloorDiv divides d by input and rounds down.
 func (d Decimal) FloorDiv(input Decimal) (Integer, error) {
-	result := decimal.Decimal(d).Div(decimal.Decimal(input)).IntPart()
-	if (result < math.MinInt32) || (result > math.MaxInt32) {
+	// truncated (toward zero) quotient, computed exactly rather than from a rounded division
+	quotient, _ := decimal.Decimal(d).QuoRem(decimal.Decimal(input), 0)
+	if quotient.LessThan(decimal.NewFromInt(math.MinInt32)) || quotient.GreaterThan(decimal.NewFromInt(math.MaxInt32)) {
 		return 0, ErrIntOverflow
 	}
-	return Integer(int32(result)), nil
+	return Integer(int32(quotient.IntPart())), nil
 }
 
 // Mod computes d % input.
